@@ -172,9 +172,10 @@ def run(module: str, cfg_text: str, *, workers=16, simulate: str | None = None, 
             if line.startswith("Error:") or "is violated" in line or "Overflow" in line:
                 errors.append(line.strip())
             if coverage:
-                m = re.match(r"<(\w+) line (\d+), col (\d+) to line (\d+), col (\d+) of module (\w+)>: (\d+):(\d+)", line)
-                if m:
-                    cov[m.group(1)] = {"distinct": int(m.group(7)), "taken": int(m.group(8))}
+                m = re.match(r"<(\w+) line (\d+), col (\d+) to line (\d+), col (\d+) of module (\w+)(?: \([\d ]+\))?>: (\d+):(\d+)", line)
+                if m:   # an action with several disjuncts/quantifiers is reported once per sub-action: accumulate
+                    c = cov.setdefault(m.group(1), {"distinct": 0, "taken": 0})
+                    c["distinct"] += int(m.group(7)); c["taken"] += int(m.group(8))
     ok = rc == 0 and not errors
     text_tail = "\n".join(tail[-120:])
     machinery_markers = ("Overflow when computing", "Parsing or semantic analysis failed", "was unable to fingerprint",
